@@ -43,7 +43,8 @@ EXPLANATION = ('Theorems over Model/Inherit.v (unbounded histories, both connect
                'results / destroy / failed create directly on the raw tables.  Instance histories: Model/InheritInst.v (per level and id the cached '
                'value of the _parent-chain instance and the identity-map entry: same instance / none / a twin) is compared the same way; the oracle '
                'compares every attribute read through every level with the raw row: a difference is legitimate only while the row was changed behind '
-               'the ORM and neither sync() nor expire() was called on any instance of the row since (and then only the value shown before).')
+               'the ORM and neither sync() nor expire() was called since on the instance of that level or of a level below it (since /repo 47d20cb both '
+               'reach every level above the instance), and then only a value the row held since the attribute was last shown.')
 TRUSTED_BASE = [
     'Coq 8.16.1 kernel + vm_compute (examples, correspondence); no native_compute',
     'Model/Inherit.v is hand-written after inheritance/__init__.py, inheritance/iteration.py and main.py (Tie B only)',
@@ -485,19 +486,22 @@ def enum_inst_cases():
 
 
 INST_CORPUS = [
-    # open finding sync_expire_skip_inherited_levels: sync() / expire() of the child leave the ancestors' instances as they are
+    # regression (finding sync_expire_skip_inherited_levels, fixed by /repo 47d20cb): sync() / expire() of the child reach the ancestors' instances
     {'mode': 'auto', 'warm': True, 'conn': 'default', 'shape': [], 'inst': True,
      'ops': [['create', 'C', {'x': 1, 'y': 1, 'z': 1}, False], ['rawset', 'A', 1, 5], ['rawset', 'C', 1, 7], ['sync', 'C', 1, 'C'], ['get', 'C', 1],
              ['expire', 'A', 1, 'C'], ['get', 'A', 1], ['sync', 'C', 1, 'A'], ['get', 'B', 1]]},
+    {'mode': 'auto', 'warm': True, 'conn': 'default', 'shape': [], 'inst': True,
+     'ops': [['create', 'C', {'x': 1, 'y': 1, 'z': 1}, False], ['rawset', 'A', 1, 5], ['rawset', 'B', 1, 6], ['expire', 'C', 1, 'C'], ['get', 'C', 1],
+             ['rawset', 'A', 1, 8], ['sync', 'B', 1, 'B'], ['get', 'A', 1]]},
     # open finding expired_ancestor_instance_twin: expire() of an ancestor instance drops it from the identity map while the leaf keeps
-    # it as _parent; the next get makes a twin, a later new leaf adopts the twin with the value it loaded long ago
+    # it as _parent; the next get through that class makes a twin; an expire() of an instance that is expired already leaves the twin
+    # where it is, and the new leaf made after c.expire() adopts it with the value it loaded long ago
+    {'mode': 'auto', 'warm': True, 'conn': 'default', 'shape': [], 'inst': True,
+     'ops': [['create', 'C', {'x': 1, 'y': 1, 'z': 1}, False], ['expire', 'C', 1, 'A'], ['syncupdate', 'A', 1, 'C'], ['rawset', 'A', 1, 5],
+             ['expire', 'C', 1, 'C'], ['get', 'C', 1]]},
     {'mode': 'auto', 'warm': True, 'conn': 'default', 'shape': [], 'inst': True,
      'ops': [['create', 'C', {'x': 1, 'y': 1, 'z': 1}, False], ['expire', 'C', 1, 'B'], ['get', 'A', 1], ['setattr', 'C', 1, 'y', 17],
              ['expire', 'C', 1, 'C'], ['get', 'C', 1]]},
-    # ... and an expire() of an instance that is expired already leaves the twin where it is
-    {'mode': 'auto', 'warm': True, 'conn': 'default', 'shape': [], 'inst': True,
-     'ops': [['create', 'C', {'x': 1, 'y': 1, 'z': 1}, False], ['expire', 'C', 1, 'A'], ['sync', 'A', 1, 'C'], ['rawset', 'A', 1, 5],
-             ['expire', 'C', 1, 'A'], ['expire', 'C', 1, 'B'], ['expire', 'C', 1, 'C'], ['get', 'C', 1]]},
 ]
 
 
@@ -936,8 +940,7 @@ def check_views(vs, k, i, rm):
 class Track(object):
     """instance histories: what the property lets an attribute read show.  Per (id, level): `raw` -- the stored value was changed
     behind the ORM's back since the level's instance was last refreshed (sync / expire on it, an assignment, creation);
-    `so` -- since then sync() or expire() was called on the instance of ANOTHER level of the same row (the property: the read
-    must now show the stored value); `twin` -- expire() was called on this non-leaf level's instance earlier (1) and after that on the leaf (2: a new leaf may have adopted a twin); `last` -- the
+    (sync / expire on an instance refresh its own level and every level above it); `twin` -- expire() was called on this non-leaf level's instance earlier (1) and after that on the leaf (2: a new leaf may have adopted a twin); `last` -- the
     value last shown and every value the row held since (all a legitimately stale read may show: an instance may have
     loaded the row at any get in between)."""
 
@@ -945,7 +948,7 @@ class Track(object):
         self.d = {}
 
     def t(self, i, m):
-        return self.d.setdefault(i, {}).setdefault(m, {'raw': False, 'so': False, 'twin': False, 'last': set()})
+        return self.d.setdefault(i, {}).setdefault(m, {'raw': False, 'twin': False, 'last': set()})
 
     def judge(self, vs, k, i, rm):
         """-> list of (message, cause)"""
@@ -964,11 +967,9 @@ class Track(object):
             sv, tv, t = leaf[COLOF[c]], want[COLOF[c]], self.t(i, c)
             if sv != tv:
                 what = 'attribute %s of %d reads %r through every level, the %s row holds %r' % (COLOF[c], i, sv, c, tv)
-                if t['raw'] and not t['so']:
+                if t['raw']:
                     if sv not in t['last']:
                         out.append((what + ' (and the row held %r since the value was last shown)' % (sorted(t['last'], key=repr),), None))
-                elif t['raw']:
-                    out.append((what + ' although sync()/expire() was called on the instance of another level of the row since the out-of-band UPDATE', 'sync_skip'))
                 else:
                     out.append((what + ' although nothing was written behind the ORM since the level was last refreshed', 'twin' if t['twin'] == 2 else None))
             t['last'] = {sv}
@@ -1092,7 +1093,7 @@ def failures(case, obs):
             if r == ['ok'] and i in prm[l]:
                 tt = trk.t(i, l)
                 tt['last'].add(prm[l][i][1])       # an instance may load the row at any get in between, unseen
-                tt['raw'], tt['so'] = True, False
+                tt['raw'] = True
         elif t in ('sync', 'syncupdate', 'expire'):
             i, l = op[2], op[3]
             if changed:
@@ -1105,16 +1106,17 @@ def failures(case, obs):
             if reach and (r == ['ok']) != (l in CHAIN[born[i]]):
                 fail('%s %r: %r' % (t, op[1:], r), [i])
             if r == ['ok'] and t != 'syncupdate' and reach:
-                for c in CHAIN[born[i]]:
+                leaf = born[i]
+                for c in CHAIN[l]:                 # the level and every level above it are refreshed
                     tt = trk.t(i, c)
-                    if c == l:
-                        tt['raw'], tt['so'] = False, False
-                        if t == 'expire' and c != born[i]:
-                            tt['twin'] = tt['twin'] or 1
-                    elif tt['raw']:
-                        tt['so'] = True
-                    if t == 'expire' and l == born[i] and c != l and tt['twin']:
-                        tt['twin'] = 2            # the next get makes a new leaf, which may adopt the twin of level c
+                    tt['raw'] = False
+                    if t == 'expire' and l != leaf:
+                        tt['twin'] = tt['twin'] or 1
+                if t == 'expire' and l == leaf:
+                    for c in CHAIN[leaf][:-1]:
+                        tt = trk.t(i, c)
+                        if tt['twin']:
+                            tt['twin'] = 2            # the next get makes a new leaf, which may adopt the twin of level c
         elif t in ('setattr', 'set'):
             i = op[2]
             if r[0] in ('err', 'skip'):
@@ -1166,7 +1168,7 @@ def failures(case, obs):
                                 fail('after the write, %s.get(%d) gives another instance' % (e, i), [i])
                             elif inst and t == 'setattr':
                                 tt = trk.t(i, CLSOF[op[3]])
-                                tt['raw'], tt['so'] = False, False
+                                tt['raw'] = False
                                 for m, cause in trk.judge(vs, k, i, rm):
                                     fail('after the write via %s: %s' % (e, m), [i] if cause is None else [], cause)
                             else:
@@ -1234,8 +1236,7 @@ def failures(case, obs):
         prev, prefs = tabs, st['refs']
 
 
-CAUSES = {'sync_skip': 'sync_expire_skip_inherited_levels',
-          'twin': 'expired_ancestor_instance_twin',
+CAUSES = {'twin': 'expired_ancestor_instance_twin',
           'set_not_atomic': 'inherit_set_not_atomic',
           'destroy_restrict': 'destroy_refused_after_ancestor_rows_deleted',
           'txn_create': 'failed_create_in_transaction_keeps_ancestor_rows'}
